@@ -176,3 +176,12 @@ def _():
     feeds = {"i0": np.array([5], dtype=np.int32)}
     ok_without = impl.session(model, optimise=False).run(None, feeds)[0].tolist() == [[5]]
     return ok_without and _raises(lambda: impl.session(model).run(None, feeds))
+
+
+@witness("C01", "where/equal-branches/trace-raises-downstream")
+def _():
+    x = ndx.asarray(np.array([[True], [False], [True]]))
+    c = ndx.array(shape=("B",), dtype=ndx.bool)
+    z = ndx.asarray(np.zeros((0, 3), dtype=bool))
+    eager_ok = ndx.concat([ndx.where(ndx.asarray(np.array([True, False, True])), x, x), z], axis=0).shape == (3, 3)
+    return eager_ok and _raises(lambda: ndx.concat([ndx.where(c, x, x), z], axis=0))
